@@ -39,15 +39,22 @@ ClassVals(kind) ==
                             V("shared_eq", "Abstract { shared: true, ty: Eq }"),
                             V("noextern", "Abstract { shared: false, ty: NoExtern }"),
                             V("concrete2", "Concrete(Module(2))")>>
-      [] kind = "bt" -> <<V("empty", "Empty"), V("i64", "Type(I64)"), V("func2", "FuncType(2)")>>
+      \* block types: empty, a function type, and every value type the IR can name (DataType variant -> the decoder's
+      \* rendering of the value type it denotes; written out by hand, independent of the library's conversion tables)
+      [] kind = "bt" -> <<V("empty", "Empty"), V("i64", "Type(I64)"), V("func2", "FuncType(2)"),
+                          V("I32", "Type(I32)"), V("F32", "Type(F32)"), V("F64", "Type(F64)"), V("V128", "Type(V128)"), V("FuncRef", "Type(Ref((ref func)))"), V("FuncRefNull", "Type(Ref(funcref))"), V("ExternRef", "Type(Ref((ref extern)))"), V("ExternRefNull", "Type(Ref(externref))"),
+                          V("Any", "Type(Ref((ref any)))"), V("AnyNull", "Type(Ref(anyref))"), V("None", "Type(Ref((ref none)))"), V("NoneNull", "Type(Ref(nullref))"), V("NoExtern", "Type(Ref((ref noextern)))"), V("NoExternNull", "Type(Ref(nullexternref))"), V("NoFunc", "Type(Ref((ref nofunc)))"), V("NoFuncNull", "Type(Ref(nullfuncref))"),
+                          V("Eq", "Type(Ref((ref eq)))"), V("EqNull", "Type(Ref(eqref))"), V("Struct", "Type(Ref((ref struct)))"), V("StructNull", "Type(Ref(structref))"), V("Array", "Type(Ref((ref array)))"), V("ArrayNull", "Type(Ref(arrayref))"), V("I31", "Type(Ref((ref i31)))"), V("I31Null", "Type(Ref(i31ref))"),
+                          V("Exn", "Type(Ref((ref exn)))"), V("NoExn", "Type(Ref((ref noexn)))"), V("Cont", "Type(Ref((ref cont)))"), V("NoCont", "Type(Ref((ref nocont)))"), V("Module2", "Type(Ref((ref (module 2))))"), V("Module2Null", "Type(Ref((ref null (module 2))))")>>
       \* indices: the k-th index parameter gets a distinct value so that swapped arguments show
       [] kind = "idx" -> <<Same("3"), Same("5"), Same("7")>>
 
 \* number of index parameters among the first k-1 parameters
 IdxBefore(kinds, k) == Cardinality({j \in 1 .. k - 1 : kinds[j] = "idx"})
+MaxVals(row) == IF \E k \in DOMAIN row.kinds : row.kinds[k] = "bt" THEN Len(ClassVals("bt")) ELSE 7
 \* admissible selections for a helper: one class value per parameter (index parameters are fixed)
 Selections(row) ==
-    {s \in [DOMAIN row.kinds -> 1 .. 7] :
+    {s \in [DOMAIN row.kinds -> 1 .. MaxVals(row)] :
         \A k \in DOMAIN row.kinds :
             IF row.kinds[k] = "idx" THEN s[k] = IdxBefore(row.kinds, k) + 1
             ELSE s[k] <= Len(ClassVals(row.kinds[k]))}
